@@ -48,7 +48,7 @@ neighbor 127.0.0.2 {{
   {passive}
   {extra}
   family {{ ipv4 unicast; ipv6 unicast; }}
-  capability {{ add-path send/receive; route-refresh enable; graceful-restart disable; }}
+  capability {{ add-path send/receive; route-refresh {rr}; graceful-restart disable; }}
   api {{
     processes [ svc ];
     neighbor-changes;
@@ -96,14 +96,15 @@ class ReactorStub:
 
 
 class PeerWorld:
-    def __init__(self, hold=9, local_as=65000, peer_as=65001, passive=False, extra='', static='', openwait=60) -> None:
+    def __init__(self, hold=9, local_as=65000, peer_as=65001, passive=False, extra='', static='', openwait=60, tail='', route_refresh=True) -> None:
         RIB._cache.clear()
         Connection.identifier.clear()
-        text = CONF.format(hold=hold, local_as=local_as, peer_as=peer_as, passive='passive true;' if passive else '', extra=extra, static=static)
+        self._fmt = dict(hold=hold, local_as=local_as, peer_as=peer_as, passive='passive true;' if passive else '', extra=extra, rr='enable' if route_refresh else 'disable')
+        text = self.config_text(static, tail)
         self.conf = Configuration([text], text=True)
         if not self.conf.reload():
             raise RuntimeError('harness configuration refused: %s' % getattr(self.conf, 'error', ''))
-        self.neighbor = list(self.conf.neighbors.values())[0]
+        self.neighbor = [n for n in self.conf.neighbors.values() if str(n.session.peer_address) == '127.0.0.2'][0]
         self.clock = vtime.Clock()
         self.events: list[dict] = []
         self.api_calls: list = []
@@ -119,6 +120,10 @@ class PeerWorld:
         self.cur_conn = 0
         self._conn_ids: dict[int, int] = {}
         self.tasks: list = []
+
+    def config_text(self, static: str, tail: str = '') -> str:
+        """the configuration of the neighbour under test with the given static section, followed by `tail` (other neighbours)"""
+        return CONF.format(static=static, **self._fmt) + tail
 
     # -- event log ------------------------------------------------------------------------
     def log(self, e: str, **kw) -> None:
